@@ -505,7 +505,12 @@ class IMAPClientCommand:
         init method so that if we hit a parsing exception the actual object
         gets created at least and potentially has self.tag set.
         """
-        self._parse()
+        try:
+            self._parse()
+        except RecursionError as err:
+            # Search keys (NOT, OR and parenthesized lists) nest.
+            #
+            raise BadSyntax(value="command is nested too deeply") from err
         return self
 
     ####################################################################
@@ -1569,6 +1574,8 @@ class IMAPClientCommand:
             # return an 'and' (of the list of elements.)
             #
             search_key = self._p_paren_list_of(self._p_search_key)
+            if not search_key:
+                raise BadSyntax(value="a search key list can not be empty")
             if len(search_key) == 1:
                 return search_key[0]
             return IMAPSearch("and", search_key=search_key)
